@@ -58,7 +58,7 @@ func (b *Batch) BuildDriver(extraImports []string, race bool) error {
 		for _, imp := range extraImports {
 			reg.WriteString("\t" + imp + "\n")
 		}
-		reg.WriteString(")\n\nvar _ = gen.Keep\n\nvar registry = map[int]reflect.Value{\n")
+		reg.WriteString(")\n\nvar _ = gen.Keep\n\nvar setFaults = map[int]func(bool){}\n\nvar registry = map[int]reflect.Value{\n")
 		ids := make([]int, 0, len(b.Reg))
 		for id := range b.Reg {
 			if b.OK[id] {
